@@ -287,8 +287,18 @@ fn gen_case(rng: &mut Rng, root: &str) -> ImportCase {
         body.push_str("/* importer */\n");
     }
     // @use / @forward must come first; a leading comment is allowed
-    body.push_str(&directive_text(directive, &url, importer_sass));
-    let line = if directive == "load-css" { 3 } else { 2 };
+    let nested = directive == "import" && rng.chance(0.2);
+    if nested {
+        // an @import nested in a style rule is resolved exactly like one at the top level
+        if importer_sass {
+            body.push_str(&format!(".wrap\n  @import \"{}\"\n", url));
+        } else {
+            body.push_str(&format!(".wrap {{ @import \"{}\"; }}\n", url));
+        }
+    } else {
+        body.push_str(&directive_text(directive, &url, importer_sass));
+    }
+    let line = if directive == "load-css" { 3 } else if nested && importer_sass { 3 } else { 2 };
     files.push((importer.clone(), body.into_bytes()));
     let entry_path;
     if via_mid {
@@ -391,6 +401,11 @@ fn gen_twin_case(rng: &mut Rng, root: &str) -> ImportCase {
     let for_reach = reach.starts_with("@import");
     let body = format!("/* importer */\n{}", directive_text(directive, &url, false));
     let mut files: Vec<(String, Vec<u8>)> = vec![(entry.clone(), reach.into_bytes()), (one.clone(), body.clone().into_bytes()), (two.clone(), body.into_bytes())];
+    // sometimes a/one lists the URL twice in ONE rule (`@import "u", "u"` is two loads from the same file),
+    // and b/two still follows
+    if directive == "import" && rng.chance(0.3) {
+        files[1].1 = format!("/* importer */\n@import \"{}\", \"{}\";\n", url, url).into_bytes();
+    }
     let line = if directive == "load-css" { 3 } else { 2 };
     let mut lps: Vec<String> = vec![];
     for d in ["lp1", "lp2"] {
@@ -578,7 +593,9 @@ fn judge(case: &ImportCase, r: &JobResult, breaches: &[String]) -> Vec<(String, 
                 let seen: Vec<String> = observed_markers(css).into_iter().map(|m| by_marker.get(&m).cloned().unwrap_or(m)).collect();
                 match (&w1, &w2) {
                     (Some(a), Some(b)) => {
-                        let exp = vec![a.clone(), b.clone()];
+                        // `@import "u", "u"` in the first importer is two loads from that file
+                        let dbl = case.job.files.iter().any(|(p, t)| normalize(&case.job.cwd, p) == normalize(&case.job.cwd, &case.importer) && String::from_utf8_lossy(t).contains("\", \""));
+                        let exp = if dbl { vec![a.clone(), a.clone(), b.clone()] } else { vec![a.clone(), b.clone()] };
                         let once = a == b && seen == vec![a.clone()];
                         if seen != exp && !once {
                             v.push((format!("wrong-winner[twin,{}]", feat), format!("@{} {:?} from {} and then from {} (load paths {:?}): the statement selects {} and {}, the output carries the markers of {:?}\nfiles: {:?}", case.directive, case.url, case.importer, twin, case.job.load_paths, a, b, seen, files)));
